@@ -42,6 +42,16 @@ func lookupExternal(fn *ssa.Function) *externalSpec {
 		return &externalSpec{pure: true, assumed: "sync primitives have sequential semantics (no effect on modelled state)"}
 	case "math/bits.TrailingZeros64", "math/bits.TrailingZeros8", "math/bits.TrailingZeros16", "math/bits.TrailingZeros32":
 		return &externalSpec{pure: true, special: "tz", assumed: "math/bits.TrailingZeros* returns a value in [0, width]"}
+	case "(*bytes.Buffer).Grow":
+		return &externalSpec{pure: true, special: "bbuf.grow", assumed: "bytes.Buffer.Grow changes neither length nor contents (abstract buffer model)"}
+	case "(*bytes.Buffer).Len":
+		return &externalSpec{pure: true, special: "bbuf.len", assumed: "bytes.Buffer.Len returns the abstract length"}
+	case "(*bytes.Buffer).Bytes":
+		return &externalSpec{pure: true, special: "bbuf.bytes", assumed: "bytes.Buffer.Bytes returns a slice holding exactly the abstract contents"}
+	case "(*bytes.Buffer).Write":
+		return &externalSpec{pure: true, special: "bbuf.write", assumed: "bytes.Buffer.Write appends its argument to the abstract contents and returns (len(p), nil)"}
+	case "bytes.Equal":
+		return &externalSpec{pure: true, special: "bytes.equal", assumed: "bytes.Equal(a,b) <=> same length and same bytes"}
 	case "bytes.IndexByte":
 		return &externalSpec{pure: true, special: "indexbyte", assumed: "bytes.IndexByte(b,c) returns -1 or the first index of c in b"}
 	}
@@ -168,6 +178,7 @@ func funcFieldKey(v ssa.Value) string {
 func (f *Frame) externalCall(st *State, x *ssa.Call, callee *ssa.Function, ext *externalSpec, args []Value) Value {
 	vc := f.vc
 	B := vc.B
+	bbufStride = B.Big(pow2(48))
 	vc.note("assumed: %s", ext.assumed)
 	resT := x.Type()
 	if !ext.pure {
@@ -185,6 +196,57 @@ func (f *Frame) externalCall(st *State, x *ssa.Call, callee *ssa.Function, ext *
 	case "isinf":
 		vc.ensureFloatFuns()
 		return VT{B.App("f_isinf", args[0].(VT).T)}
+	case "bbuf.grow":
+		return VTuple{}
+	case "bbuf.len":
+		b0 := ptrTerm(args[0])
+		return VT{B.Select(vc.heapGet(st, "ghost:bbuf.len"), b0)}
+	case "bbuf.bytes":
+		b0 := ptrTerm(args[0])
+		n := B.Select(vc.heapGet(st, "ghost:bbuf.len"), b0)
+		vc.fact(B.Le(B.Int(0), n))
+		r := vc.freshValue(f.prefix+x.Name(), resT).(VSlice)
+		D := vc.heapGet(st, "ghost:bbuf.data")
+		M := vc.heapGet(st, "M")
+		k := B.BVar("bb", SInt)
+		st.pc = B.And(st.pc, B.Eq(r.Len, n),
+			B.Forall([]*Term{k}, B.Implies(B.And(B.Le(B.Int(0), k), B.Lt(k, n)), B.Eq(B.Select(M, B.Add(r.Ptr, k)), B.Select(D, B.Add(B.Mul(bbufStride, b0), k))))))
+		return r
+	case "bbuf.write":
+		b0 := ptrTerm(args[0])
+		p, _ := args[1].(VSlice)
+		L := vc.heapGet(st, "ghost:bbuf.len")
+		D := vc.heapGet(st, "ghost:bbuf.data")
+		M := vc.heapGet(st, "M")
+		n := B.Select(L, b0)
+		vc.fact(B.Le(B.Int(0), n))
+		D2 := B.Fresh(f.prefix+x.Name()+".bbuf", SArrII)
+		k := B.BVar("bw", SInt)
+		base := B.Mul(bbufStride, b0)
+		in := B.And(B.Le(B.Add(base, n), k), B.Lt(k, B.Add(base, n, p.Len)))
+		st.pc = B.And(st.pc, B.Forall([]*Term{k}, B.Eq(B.Select(D2, k), B.Ite(in, B.Select(M, B.Add(p.Ptr, B.Sub(k, B.Add(base, n)))), B.Select(D, k)))))
+		vc.heapSet(st, "ghost:bbuf.data", D2)
+		vc.heapSet(st, "ghost:bbuf.len", B.Store(L, b0, B.Add(n, p.Len)))
+		return VTuple{[]Value{VT{p.Len}, VIface{B.Int(0), B.Int(0)}}}
+	case "bytes.equal":
+		a, aok := args[0].(VSlice)
+		b2, bok := args[1].(VSlice)
+		if aok && bok {
+			M := vc.heapGet(st, "M")
+			n := a.Len
+			if b2.Len.IsConst() {
+				n = b2.Len
+			}
+			if n.IsConst() && n.ival.IsInt64() && n.ival.Int64() <= 16 {
+				cs := []*Term{B.Eq(a.Len, b2.Len)}
+				for i := int64(0); i < n.ival.Int64(); i++ {
+					cs = append(cs, B.Eq(vc.byteAt(M, B.Add(a.Ptr, B.Int(i))), vc.byteAt(M, B.Add(b2.Ptr, B.Int(i)))))
+				}
+				return VT{B.And(cs...)}
+			}
+			k := B.BVar("eq", SInt)
+			return VT{B.And(B.Eq(a.Len, b2.Len), B.Forall([]*Term{k}, B.Implies(B.And(B.Le(B.Int(0), k), B.Lt(k, a.Len)), B.Eq(B.Select(M, B.Add(a.Ptr, k)), B.Select(M, B.Add(b2.Ptr, k))))))}
+		}
 	case "tz":
 		r := vc.freshValue(f.prefix+x.Name(), resT).(VT)
 		bits, _, _ := intInfo(callee.Params[0].Type())
@@ -201,6 +263,20 @@ func (f *Frame) externalCall(st *State, x *ssa.Call, callee *ssa.Function, ext *
 		vc.assumeNonNil(r, resT)
 	}
 	return r
+}
+
+var bbufStride *Term
+
+func ptrTerm(v Value) *Term {
+	switch p := v.(type) {
+	case VT:
+		return p.T
+	case VPtr:
+		if p.Cell == nil {
+			return p.Addr
+		}
+	}
+	return nil
 }
 
 func (vc *VC) assumeNonNil(r Value, t types.Type) {
@@ -286,6 +362,20 @@ func (f *Frame) contractCall(st *State, x *ssa.Call, c *Contract, callee *ssa.Fu
 	f.callCount[name]++
 	for _, l := range c.Lets {
 		ctx.names[l.Name] = ctx.evalLet(l)
+	}
+	if f.c != nil && f.top {
+		for _, ca := range f.c.CallAssumes[name] {
+			actx := f.newCtx(st, f.entry)
+			actx.at = x.Block()
+			actx.atEnd = true
+			g, err := actx.evalBoolSafe(ca.E)
+			if err != nil {
+				vc.note("call-site assumption cannot be evaluated: %v", err)
+				continue
+			}
+			st.pc = B.And(st.pc, g)
+			vc.note("ASSUMED at the call to %s in %s: %s", name, f.c.Key, ca.Text)
+		}
 	}
 	for i, cl := range c.Requires {
 		g, err := ctx.evalBoolSafe(cl.E)
@@ -509,41 +599,40 @@ func (f *Frame) execAppend(st *State, x *ssa.Call) Value {
 	vc.freshRegion(st, np, B.Mul(B.Int(es), nc))
 	res := VSlice{rp, newLen, rc}
 	if es == 1 {
+		// The new byte heap M2 is characterised by three frame facts instead of one nested
+		// definition: (F1) the old elements are where the result starts, (F2) the appended bytes
+		// follow, (F3) nothing outside [rp, rp+newLen) changed. Together they determine M2.
 		M := vc.heapGet(st, "M")
+		M2 := B.Fresh(f.prefix+x.Name()+".M", SArrII)
 		k := B.BVar("ap", SInt)
-		inOld := B.And(B.Le(rp, k), B.Lt(k, B.Add(rp, s.Len)))
-		// a reallocating append first copies the old prefix into the new array
-		M1 := B.Fresh(f.prefix+x.Name()+".Mc", SArrII)
-		vc.fact(B.Forall([]*Term{k}, B.Eq(B.Select(M1, k), B.Ite(B.And(B.Not(inPlace), inOld), B.Select(M, B.Add(s.Ptr, B.Sub(k, rp))), B.Select(M, k)))))
-		Mbase := B.Ite(inPlace, M, M1)
-		// number of appended bytes: constants (and ite-trees of constants) get explicit stores
-		var build func(n *Term) *Term
-		build = func(n *Term) *Term {
+		vc.fact(B.Forall([]*Term{k}, B.Implies(B.And(B.Le(B.Int(0), k), B.Lt(k, s.Len)),
+			B.Eq(B.Select(M2, B.Add(rp, k)), B.Select(M, B.Add(s.Ptr, k))))))
+		vc.fact(B.Forall([]*Term{k}, B.Implies(B.Or(B.Lt(k, rp), B.Le(B.Add(rp, newLen), k)),
+			B.Eq(B.Select(M2, k), B.Select(M, k)))))
+		var explicit func(n *Term) *Term
+		explicit = func(n *Term) *Term {
 			if n.IsConst() && n.ival.IsInt64() && n.ival.Int64() <= 32 {
-				Mi := Mbase
+				var cs []*Term
 				for i := int64(0); i < n.ival.Int64(); i++ {
-					Mi = B.Store(Mi, B.Add(rp, B.Add(s.Len, B.Int(i))), B.Select(M, B.Add(srcPtr, B.Int(i))))
+					cs = append(cs, B.Eq(B.Select(M2, B.Add(rp, s.Len, B.Int(i))), vc.byteAt(M, B.Add(srcPtr, B.Int(i)))))
 				}
-				return Mi
+				return B.And(cs...)
 			}
 			if n.op == "ite" && iteConst(n) {
-				a, b2 := build(n.args[1]), build(n.args[2])
+				a, b2 := explicit(n.args[1]), explicit(n.args[2])
 				if a != nil && b2 != nil {
 					return B.Ite(n.args[0], a, b2)
 				}
 			}
 			return nil
 		}
-		if Mi := build(n); Mi != nil {
-			vc.heapSet(st, "M", Mi)
+		if e := explicit(n); e != nil {
+			vc.fact(e)
 		} else {
-			M2 := B.Fresh(f.prefix+x.Name()+".M", SArrII)
-			inNew := B.And(B.Le(B.Add(rp, s.Len), k), B.Lt(k, B.Add(rp, newLen)))
-			val := B.Ite(inNew, B.Select(M, B.Add(srcPtr, B.Sub(k, B.Add(rp, s.Len)))),
-				B.Ite(inOld, B.Select(M, B.Add(s.Ptr, B.Sub(k, rp))), B.Select(M, k)))
-			vc.fact(B.Forall([]*Term{k}, B.Eq(B.Select(M2, k), val)))
-			vc.heapSet(st, "M", M2)
+			vc.fact(B.Forall([]*Term{k}, B.Implies(B.And(B.Le(B.Int(0), k), B.Lt(k, n)),
+				B.Eq(B.Select(M2, B.Add(rp, s.Len, k)), B.Select(M, B.Add(srcPtr, k))))))
 		}
+		vc.heapSet(st, "M", M2)
 	} else {
 		out := map[string]bool{}
 		storeClasses("", et, out)
